@@ -65,6 +65,24 @@ def _fills(mod, names):
     return out
 
 
+def _extent_guard(fi, memo):
+    """does fi compare the extent (len / shape / size) of something it read from the memo with anything?"""
+    fetched = set()
+    for n in walk_no_nested(fi.node):
+        if isinstance(n, ast.Assign) and any(isinstance(x, ast.Name) and x.id == memo for x in ast.walk(n.value)):
+            for t in n.targets:
+                fetched |= {x.id for x in ast.walk(t) if isinstance(x, ast.Name)}
+    for n in walk_no_nested(fi.node):
+        if isinstance(n, ast.Compare):
+            for side in [n.left] + list(n.comparators):
+                for x in ast.walk(side):
+                    if isinstance(x, ast.Call) and isinstance(x.func, ast.Name) and x.func.id == 'len' and x.args and any(isinstance(y, ast.Name) and (y.id in fetched or y.id == memo) for y in ast.walk(x.args[0])):
+                        return True
+                    if isinstance(x, ast.Attribute) and x.attr in ('shape', 'size') and any(isinstance(y, ast.Name) and (y.id in fetched) for y in ast.walk(x.value)):
+                        return True
+    return False
+
+
 def audit_module(db, mod, only=None):
     """[(function, memo, kind, text)] for the module-level memos of `mod`; kind in {'ok', 'incomplete', 'inplace'}.  Raises
     AnalysisError when a memo cannot be followed."""
@@ -113,6 +131,11 @@ def audit_module(db, mod, only=None):
                 if sig in seen:
                     continue
                 seen.add(sig)
+                if miss and _extent_guard(fi, memo):
+                    # an entry that is extended when a request needs more of it (a table of orders 0..N regrown for a larger N): the
+                    # entry legitimately depends on earlier requests; whether the regrow test is right is a matter of values
+                    raise AnalysisError('%s: the memo %s holds tables that are extended on demand (their extent is compared with the request): whether every request is '
+                                        'covered by the table it is served from is not decided here' % (fi.qual, memo))
                 if miss:
                     out.append((fi, memo, 'incomplete', 'the memo %s is filled from %s, which the key it is stored under does not determine: a later call that differs only in %s is served the entry '
                                 'computed for the earlier one' % (memo, miss, miss)))
